@@ -195,6 +195,7 @@ class EventListHeap(EventListInterface):
         if (self.contains(event)):
             self._event_list.remove((event.time, -event.priority,
                                      event._id, event))
+            heapq.heapify(self._event_list)
             return True
         return False
 
